@@ -47,12 +47,33 @@ func DrawConfig(t *rapid.T, label string, big bool) Config {
 	case "get":
 		c.N = pick(getSizes, getBig, 0, 300)
 	}
+	// second life: the writer was used before, typically on the other side
+	switch rapid.IntRange(0, 3).Draw(t, label+".reuse") {
+	case 2:
+		c.Reuse = "reset"
+	case 3:
+		c.Reuse = "reset"
+		if c.Ctor == "get" {
+			c.Reuse = "pool"
+			if rapid.IntRange(0, 2).Draw(t, label+".poolclass") > 0 {
+				c.N = rapid.SampledFrom([]int{128, 256, 1024, 4096}).Draw(t, label+".pooln")
+			}
+		}
+	}
+	if c.Reuse != "" {
+		c.PrevClient = c.Client != (rapid.IntRange(0, 3).Draw(t, label+".prevside") > 0) // mostly the other side
+		c.PrevOp = rapid.SampledFrom([]byte{1, 2, 9}).Draw(t, label+".prevop")
+		c.PrevUse = rapid.IntRange(0, 7).Draw(t, label+".prevuse")
+	}
 	if !Legal(c) {
-		// Too small for a client-side header: the constructors panic by
-		// contract. Use the smallest legal buffer instead.
-		c.N = MinRaw(c.Client)
+		// Too small for a client-side header: the constructors (and Reset to
+		// the client side) panic by contract. Use the smallest legal buffer.
+		c.N = MinRaw(c.Client || (c.Reuse != "" && c.PrevClient))
 		if c.Ctor == "size" {
 			c.N = 1
+			if c.Reuse != "" && c.Client && !c.PrevClient {
+				c.N = 5 // server-side NewWriterSize(5) allocates 7 bytes: the least a client-side Reset accepts
+			}
 		}
 	}
 	switch rapid.IntRange(0, 7).Draw(t, label+".ext") {
